@@ -51,6 +51,11 @@ for _pid, _ref, _txt in (
 ):
 	CHECKS[_pid] = dict(UM, design_ref=_ref, text=_txt + " Seeded search over configurations, histories and network faults; sampling, not proof.")
 
+CHECKS["C14"] = dict(engine="um+dump+trxcon", category="exploration", design_ref="§5/C14",
+	technique="deterministic simulation with hostile-input fault injection: seeded valid sessions of the real fake_trx.Application with malformed control/data datagrams injected at arbitrary points, damaged capture files on the simulated disk, hostile datagrams into trxcon's trx_if.c built with ASan/UBSan; oracles: no simulated thread dies, parsers raise only ValueError, later traffic still served per the reference model",
+	text="Seeded search over (session, injection point, mutation kind); every run is judged by thread-death detection plus all session oracles of the um engine for the valid traffic that follows; capture readers must not raise on rotten files. Sampling, not proof.",
+	note="Trusts the simulator kernel, the reference model and codec; partial effects of rejected multi-argument commands are don't-cares; see evidence for which sub-engines ran.")
+
 PENDING = {pid: "check under construction (engine `%s`, see DESIGN.md §5); not claimed yet" % eng for pid, eng in {
 	"C02": "um", "C03": "um", "C05": "um", "C06": "sercomm", "C08": "tdma", "C10": "um", "C12": "um",
 	"C14": "um+dump+trxcon", "C15": "dump", "C18": "um"}.items()}
